@@ -12,7 +12,6 @@ ALL = ["C%02d" % i for i in range(1, 18)]
 
 NOT_APPLICABLE = {
     "C01": "Semantic equivalence of two semantics over all programs x all inputs: no clause is visible in the shape of the code without fixing the meaning of every gate network (translation validation / proof are other families). Its structural preconditions are decided under C02, C14, C15, C03, C06.",
-    "C05": "Relates two 2 kLoC modules (every assert/unwrap/index of compile.rs is discharged by a guarantee of check.rs about typed ASTs, incl. integer-literal inference): needs the typing relation as a formal object; a panic-site inventory would fire on behaviour-preserving edits and prove nothing.",
 }
 PENDING = "rules for this property are designed (DESIGN.md section 4) but not implemented yet in this framework; not claimed until they exist, pass self-validation and are quiet or triaged on the pinned tree"
 
